@@ -708,6 +708,7 @@ class P(Prop):
         (M, "TV.C02.operate_source_spaces", "operate on a string = operate on the string without its blanks (any spacing of the source)"),
         (M, "TV.C02.operate_source_starstar", "'**' written for '^'"),
         (M, "TV.C02.operate_source_reflexive", "reflexive forms 'lhs op= e' (op in + - * / ^ % !) are 'lhs = lhs op (e)'"),
+        (M, "TV.C02.getitem_is_operate", "front end: Track[expr] is Track.operate(expr) as soon as the stripped string contains one of + - / * ^ > < ( ) = '"),
         (M, "TV.C02.operate_source_bare_minus", "a bare unary minus at the start, after '=', '(' or '{' is the parenthesised '(0-...)' form (one per application)"),
     ]
     partial = []
@@ -873,9 +874,11 @@ class P(Prop):
             return ["var", rng.choice(names)] if rng.random() < 0.5 else t
         return [self.subst_var(c, rng, names) if isinstance(c, list) else c for c in t]
 
-    def mk_case(self, tree, env, lhs, bare, rng=None, spaces=False, stars=False):
+    def mk_case(self, tree, env, lhs, bare, rng=None, spaces=False, stars=False, via=None):
         c = {"kind": "expr", "tree": tree, "env": env, "lhs": lhs, "bare": bool(bare), "spaces": bool(spaces), "stars": bool(stars)}
         c["expr"] = self.render(c)
+        if via:
+            c["via"] = via
         return c
 
     def render(self, c):
@@ -933,6 +936,7 @@ class P(Prop):
             for lhs in self.LHS:
                 for rep in range(3 if thorough else 1):
                     emit(t, lhs, bare=rng.random() < 0.5)
+            emit(t, None, bare=rng.random() < 0.5, via="getitem")       # Track[expr]
         # a parenthesis directly after a comparison operator (fix 6716f85): every `l o (p q r)` and `(p q r) o l`
         for o in "<>":
             for l in (["var", "a"], ["num", "2"], ["var", "x"], ["call", "D", ["var", "b"]]):
@@ -963,7 +967,7 @@ class P(Prop):
             env = self.fix_env(self.rand_env(rng, easy=rng.random() < 0.4))
             lhs = rng.choice([None, None, "c", "a", "b", "x", "y", "z"])
             c = self.mk_case(t, env, lhs, bare=rng.random() < 0.5, spaces=rng.random() < 0.2, stars=rng.random() < 0.2)
-            if rng.random() < 0.2 and any(ch in c["expr"] for ch in "+-/*^><()='"):
+            if rng.random() < 0.2:
                 c["via"] = "getitem"          # Track[expr] instead of Track.operate(expr)
             if self.in_domain(c):
                 out.append(c)
@@ -990,14 +994,14 @@ class P(Prop):
         for t in d2:
             for rep in range(4 if thorough else 1):
                 emit_wide(t, rng.choice(self.LHS), bare=rng.random() < 0.5)
-        for i in range(150000 if thorough else 9000):
+        for i in range(150000 if thorough else 16000):
             t = self.rand_tree(rng, rng.choice([2, 2, 3, 3, 4]), wide=True)
             if has_call_of_constant(t):
                 continue
             env = self.fix_env(self.rand_env(rng, style="scaled" if rng.random() < 0.65 else "wide"))
             lhs = rng.choice([None, None, "c", "a", "b", "x", "y"])
             c = self.mk_case(t, env, lhs, bare=rng.random() < 0.5, spaces=rng.random() < 0.1, stars=rng.random() < 0.1)
-            if rng.random() < 0.2 and any(ch in c["expr"] for ch in "+-/*^><()='"):
+            if rng.random() < 0.2:
                 c["via"] = "getitem"
             if self.in_domain(c):
                 out.append(c)
@@ -1005,7 +1009,7 @@ class P(Prop):
                 out.append({"kind": "malformed", "expr": c["expr"], "env": env})
         # sequences: one or two statements run first on the same track (state left by earlier calls: columns created,
         # overwritten, coordinates written, temporaries purged), then the judged statement, which may read what they wrote
-        for i in range(30000 if thorough else 2500):
+        for i in range(30000 if thorough else 4000):
             st = rng.random()
             env = self.fix_env(self.rand_env(rng, easy=st < 0.3, style=None if st < 0.6 else "scaled"))
             defined = []
@@ -1027,7 +1031,7 @@ class P(Prop):
             c = self.mk_case(t, env, rng.choice([None, None, "c", "a", "x", "e"]), bare=rng.random() < 0.5)
             c["pre"] = pre
             if rng.random() < 0.3:
-                c["via"] = rng.choice(["getitem", "op"]) if any(ch in c["expr"] for ch in "+-/*^><()='") else "op"
+                c["via"] = "op"
             if self.in_domain(c):
                 out.append(c)
         # reflexive operators  lhs op= e   (meaning lhs = lhs op (e))
@@ -1044,7 +1048,7 @@ class P(Prop):
             if self.in_domain(c):
                 out.append(c)
         # operator objects applied directly
-        for i in range(40000 if thorough else 4000):
+        for i in range(40000 if thorough else 6000):
             st = rng.random()
             env = self.fix_env(self.rand_env(rng, style=None if st < 0.4 else ("scaled" if st < 0.75 else "wide")))
             r = rng.random()
@@ -1206,7 +1210,7 @@ class P(Prop):
         if k in ("expr", "malformed"):
             if case.get("pre"):
                 return ["C02.operateseq %s %s" % (self.track_tokens(case["env"]), ",".join(enc(p["expr"]) for p in case["pre"]) + "," + enc(case["expr"]))]
-            reqs = ["C02.operate %s %s" % (self.track_tokens(case["env"]), enc(case["expr"]))]
+            reqs = ["C02.%s %s %s" % ("getitem" if case.get("via") == "getitem" else "operate", self.track_tokens(case["env"]), enc(case["expr"]))]
             if k == "expr":
                 reqs.append("C02.denote %s %s" % (self.track_tokens(case["env"]), ",".join(tree_tokens(case["tree"]))))
             return reqs
@@ -1220,13 +1224,14 @@ class P(Prop):
         if k == "op":
             tt = self.track_tokens(case["env"])
             f = case["form"]
-            outn = case.get("out") or case["in1"]      # Track.operate: the output defaults to the first input
+            outn = case.get("out")                    # None: the model applies Track.operate's default (the first input)
+            enc_out = lambda o: "none" if o is None else enc(o)
             if f == "bin":
-                return ["C02.opbin %s %d %s %s %s" % (tt, ord(case["op"]), enc(case["in1"]), enc(case["in2"]), enc(outn))]
+                return ["C02.opbin %s %d %s %s %s" % (tt, ord(case["op"]), enc(case["in1"]), enc(case["in2"]), enc_out(outn))]
             if f in ("scal", "scalrev"):
-                return ["C02.op%s %s %d %s %s %s" % (f, tt, ord(case["op"]), enc(case["in1"]), fbits(case["s"]), enc(outn))]
+                return ["C02.op%s %s %d %s %s %s" % (f, tt, ord(case["op"]), enc(case["in1"]), fbits(case["s"]), enc_out(outn))]
             if f == "fn":
-                return ["C02.opfn %s %s %s %s" % (tt, enc(case["op"]), enc(case["in1"]), enc(outn))]
+                return ["C02.opfn %s %s %s %s" % (tt, enc(case["op"]), enc(case["in1"]), enc_out(outn))]
             return ["C02.opagg %s %s %s" % (tt, enc(case["op"]), enc(case["in1"]))]
 
     def dec_state(self, case, parts):
@@ -1373,15 +1378,16 @@ class P(Prop):
             return m or self.unchanged(env, out, except_name=outn)
         # expressions
         expr, lhs = case["expr"], case["lhs"]
+        call = ("Track[%r]" if case.get("via") == "getitem" else "operate(%r)") % expr
         if out["status"] != "ok":
             if (divzero and out["status"] == "err:zerodiv") or undef:
                 return self.unchanged(env, out)
-            return "operate(%r) raised %s" % (expr, out["status"])
+            return "%s raised %s" % (call, out["status"])
         if lhs is None:
-            m = vec_matches(out["ret"], vals, "operate(%r)" % expr)
+            m = vec_matches(out["ret"], vals, call)
             return m or self.unchanged(env, out)
         if out["ret"] is not None:
-            return "operate(%r) returned %s instead of None" % (expr, out["ret"])
+            return "%s returned %s instead of None" % (call, out["ret"])
         if lhs in ("x", "y", "z"):
             m = vec_matches(out[lhs], vals, "coordinate %s after %r" % (lhs, expr))
             return m or self.unchanged(env, out, except_coord=lhs)
@@ -1394,6 +1400,8 @@ class P(Prop):
     #   sentinel     MIN / MAX / ARGMIN / ARGMAX start from +-1e300: values beyond the sentinel are not seen
     #   reciprocal   x/number is coded x*(1.0/number) and number/x as (1.0/x)*number: when the reciprocal overflows
     #                (|divisor| < 5.6e-309, a subnormal) the quotient comes out as inf / NaN although it is representable
+    #   (front end) Track[expr] evaluates expr only when it contains one of + - / * ^ > < ( ) = ': a function call alone
+    #                ('SUM{a}', 'D{a}') or a number alone is taken for a feature name (class getitem-expression-taken-for-a-name)
     QUIRKS = {"abs-inf": "abs-of-infinity", "sentinel": "extremum-beyond-sentinel", "reciprocal": "scalar-division-reciprocal-overflow"}
 
     def classify(self, case, impl_out, msg):
@@ -1402,6 +1410,9 @@ class P(Prop):
         in corpus/C02/d21-*, d22-*)"""
         if case.get("kind") not in ("expr", "op") or not msg or not isinstance(impl_out, dict) or "err" in impl_out:
             return None
+        if (case.get("via") == "getitem" and not any(ch in case["expr"] for ch in "+-/*^><()='")
+                and impl_out.get("status") == "err:AnalyticalFeatureError"):
+            return "getitem-expression-taken-for-a-name"
         for q, name in self.QUIRKS.items():
             try:
                 if self.judge(case, impl_out, quirks=(q,)) is None:
